@@ -454,6 +454,36 @@ pub fn join_attempt(rng: &mut Rng, h: &mut Hist, accept_pct: u64) -> bool {
     }
 }
 
+/// A long run of unanswered join attempts (the join walk over all banks of a fixed plan, with and
+/// without a bias of several tries; dynamic plans walk their join channels), optionally interleaved
+/// with a data uplink of an earlier ABP session: the walk's book-keeping must never run dry.
+pub fn join_walk(suite: &str, rng: &mut Rng, region: &str, k: usize) -> String {
+    let bias = if is_fixed(region) && k % 4 != 3 { Some((1 + rng.below(8) as u8, [2usize, 3, 4, 1][k % 4])) } else { None };
+    let mut h = Hist::new(suite, region, 20, 0, rng.next() & 0xffffff, &[], bias);
+    h.go_live();
+    if k % 5 == 4 {
+        // data uplinks while the bias is still in force, then the run of re-joins
+        h.abp();
+        for _ in 0..3 {
+            h.send(1, false, &[1]).timeout();
+        }
+    }
+    let n = 60 + rng.below(30) as usize;
+    for i in 0..n {
+        if h.dead {
+            break;
+        }
+        h.ev("otaa");
+        if i % 16 == 7 {
+            let bad = build_join_accept(&OTHER_KEY, 0x01020304, 0, 1, &CfDesc::None);
+            h.rx_bytes("rx1", 0, &bad, None);
+        }
+        h.timeout();
+    }
+    h.snap();
+    h.done()
+}
+
 /// A general random history (see Opts); returns the op line and the histogram class.
 pub fn gen_history(suite: &str, rng: &mut Rng, region: &str, o: &Opts) -> String {
     let bias = if o.bias && is_fixed(region) && rng.chance(1, 2) { Some((1 + rng.below(8) as u8, rng.below(4) as usize)) } else { None };
